@@ -871,3 +871,112 @@ Proof.
   pose proof (N.mod_lt (class_total pre ni ig true) n ltac:(lia)).
   repeat match goal with |- context [N.leb ?a ?b] => destruct (N.leb_spec a b) end; lia.
 Qed.
+
+(* when the other filters reject one ignored class altogether (--run-ignored default / only),
+   the input is outside the class *)
+Lemma accepted_none pre c names : (forall nm, pre nm c <> None) -> accepted pre c names = [].
+Proof.
+  intros H. unfold accepted. induction names as [|nm rest IH]; cbn [filter]; [reflexivity|].
+  destruct (pre nm c) eqn:E; [exact IH|]. exfalso. exact (H nm E).
+Qed.
+
+Lemma f21_single_class pre ni ig n c0 :
+  (forall nm, pre nm c0 <> None) -> f21_class pre ni ig n = false.
+Proof.
+  intros H. unfold f21_class, class_total. apply andb_false_iff.
+  assert (Z : 1 <=? 0 mod n = false).
+  { destruct n; [reflexivity|]. rewrite N.mod_0_l by discriminate. reflexivity. }
+  destruct c0; [right|left]; rewrite (accepted_none pre _ _ H); exact Z.
+Qed.
+
+(* hash sharding never moves a test: its shard in any two listings that both select it when
+   unpartitioned is the same *)
+Lemma listing_hash_never_moves pre ni ig pre' ni' ig' m n nm :
+  valid_shards m n = true ->
+  In nm (matched (process_output None pre ni ig)) ->
+  In nm (matched (process_output None pre' ni' ig')) ->
+  (In nm (matched (process_output (Some (mkpb PHash m n)) pre ni ig)) <->
+   In nm (matched (process_output (Some (mkpb PHash m n)) pre' ni' ig'))).
+Proof. intros Hv H1 H2. rewrite !listing_hash_In by assumption. tauto. Qed.
+
+(* ------------------------------------------------------------------ parse_shards *)
+
+Lemma parse_u64_bound s v : parse_u64 s = Some v -> v < M64.
+Proof.
+  unfold parse_u64.
+  destruct (match s with 43 :: r => r | _ => s end) as [|c body]; [discriminate|].
+  destruct (parse_digits (c :: body) 0) as [w|]; [|discriminate].
+  destruct (N.ltb_spec w M64) as [Hlt|Hge]; [|discriminate]. intros E. injection E as <-. exact Hlt.
+Qed.
+
+Lemma parse_shards_valid s m n :
+  parse_shards s = Some (m, n) -> valid_shards m n = true /\ m < M64 /\ n < M64.
+Proof.
+  unfold parse_shards. destruct (split_slash s) as [[a b]|]; [|discriminate].
+  destruct (parse_u64 a) as [x|] eqn:Ea; [|discriminate].
+  destruct (parse_u64 b) as [y|] eqn:Eb; [|discriminate].
+  destruct (valid_shards x y) eqn:Ev; [|discriminate].
+  intros H. injection H as <- <-. split; [exact Ev|].
+  split; eapply parse_u64_bound; eassumption.
+Qed.
+
+Lemma parse_partition_valid s pb :
+  parse_partition s = Some pb ->
+  valid_shards (pb_shard pb) (pb_total pb) = true /\ pb_shard pb < M64 /\ pb_total pb < M64.
+Proof.
+  unfold parse_partition. destruct (strip_prefix s_hash_colon s) as [r|].
+  - destruct (parse_shards r) as [[m n]|] eqn:E; [|discriminate].
+    intros H. injection H as <-. cbn [pb_shard pb_total]. apply (parse_shards_valid r), E.
+  - destruct (strip_prefix s_count_colon s) as [r|]; [|discriminate].
+    destruct (parse_shards r) as [[m n]|] eqn:E; [|discriminate].
+    intros H. injection H as <-. cbn [pb_shard pb_total]. apply (parse_shards_valid r), E.
+Qed.
+
+Lemma parse_partition_total_nonzero s pb :
+  parse_partition s = Some pb -> 1 <= pb_shard pb <= pb_total pb /\ pb_total pb <> 0.
+Proof.
+  intros H. apply parse_partition_valid in H. destruct H as [H _].
+  apply valid_shards_iff in H. lia.
+Qed.
+
+(* ------------------------------------------------------------------ statements as exported *)
+
+Lemma pass_hash_valid pre ign m n names cur :
+  valid_shards m n = true ->
+  pass (Some (mkpb PHash m n)) pre ign names cur =
+  map (fun nm => (nm, (ign, match pre nm ign with
+                            | Some r => Mismatch r
+                            | None => if hash_shard n nm =? m then Matches
+                                      else Mismatch MPartition
+                            end))) names.
+Proof.
+  intros Hv. apply valid_shards_iff in Hv. rewrite pass_hash_map. apply map_ext. intros nm.
+  rewrite hash_verdict_valid by lia. reflexivity.
+Qed.
+
+Lemma pass_count_stride_valid pre ign m n names :
+  valid_shards m n = true ->
+  matched (pass (Some (mkpb PCount m n)) pre ign names 0) =
+  stride (m - 1) n (accepted pre ign names).
+Proof. intros Hv. apply valid_shards_iff in Hv. apply matched_pass_count_stride. lia. Qed.
+
+Lemma listing_shard_union k pre ni ig n nm :
+  1 <= n -> NoDup ni -> NoDup ig ->
+  (In nm (matched (process_output None pre ni ig)) <->
+   exists m, 1 <= m <= n /\ In nm (matched (process_output (Some (mkpb k m n)) pre ni ig))).
+Proof.
+  intros Hn H1 H2. split.
+  - apply listing_shard_cover; assumption.
+  - intros [m [Hm H]]. eapply listing_shard_sub; [apply valid_shards_iff; exact Hm| | |exact H];
+      assumption.
+Qed.
+
+Lemma class_names_spec c ni ig :
+  (forall nm, In nm (class_names c ni ig) <-> if c then In nm ig else In nm ni /\ ~ In nm ig) /\
+  (NoDup ni -> NoDup ig -> StronglySorted slt (class_names c ni ig)).
+Proof. split; [intros nm; apply class_names_In|apply class_names_ssorted]. Qed.
+
+Lemma matched_split l :
+  (forall nm, In nm (matched l) <-> In nm (matched_class false l) \/ In nm (matched_class true l)) /\
+  length (matched l) = (length (matched_class false l) + length (matched_class true l))%nat.
+Proof. split; [intros nm; apply matched_split_In|apply matched_split_length]. Qed.
